@@ -117,10 +117,10 @@ theorem kate_fold (b : F) : ∀ (t : List F), t ≠ [] →
   | c :: d :: t, _ => by
     rw [List.foldr_cons, kate_fold b (d :: t) (by simp)]
     simp only [synth]
-    ext
-    · simp; ring
-    · simp
-    · simp; ring
+    refine Prod.ext ?_ ?_
+    · simp only [List.cons.injEq, and_true]
+      ring
+    · simp only; ring
 
 end
 
